@@ -491,7 +491,7 @@ def _reset_module_state(module, pristine):
             g.update(v)
 
 
-def ob_history(run, interp):
+def ob_history(run, interp, warmups=1):
     """permission to use a class belongs to the call (the connection's
     switches), not to the process: two loads in a row with independent
     switches; the second is judged against its own switches only"""
@@ -499,9 +499,9 @@ def ob_history(run, interp):
     RECS = [("mymod", "MyExc"), ("lazymod", "LazyExc"), ("builtins", "KeyError"), ("mymod", "NotAnException"), ("nosuchmod", "X")]
 
     def ob(o):
-        o.symbolic = ["two consecutive vinegar.load calls; each has its own three switches: 6 Bools",
-                      "records: exhaustive over %d x %d (module, class) pairs" % (len(RECS), len(RECS))]
-        o.bounds = {"history_length": 2}
+        o.symbolic = ["%d consecutive vinegar.load calls; each has its own three switches: %d Bools" % (warmups + 1, 3 * (warmups + 1)),
+                      "records: exhaustive over %d^%d (module, class) tuples" % (len(RECS), warmups + 1)]
+        o.bounds = {"history_length": warmups + 1}
         acc = Acc()
 
         def harness(c):
@@ -522,6 +522,11 @@ def ob_history(run, interp):
             interp.override_global(vinegar, "sys", FakeSys(mods))
             interp.override_global(vinegar, "__import__", fake_import)
             del Canary.log[:]
+            for w_ in range(warmups - 1):
+                # earlier loads of the history (thorough tier): any record, any switches
+                sw0 = [SymBool(c.fresh_bool("load%d_%s" % (w_, n))) for n in ("import_custom", "instantiate_custom", "instantiate_oldstyle")]
+                r0 = RECS[c.choose(len(RECS), "earlier")]
+                interp.call(vinegar.load, ((r0, (0,), (), "TB0"), sw0[0], sw0[1], sw0[2]))
             sw1 = [SymBool(c.fresh_bool("first_" + n)) for n in ("import_custom", "instantiate_custom", "instantiate_oldstyle")]
             sw2 = [SymBool(c.fresh_bool("second_" + n)) for n in ("import_custom", "instantiate_custom", "instantiate_oldstyle")]
             r1 = RECS[c.choose(len(RECS), "first")]
@@ -635,7 +640,7 @@ def main():
     run.obligation("O1_class_resolution", "vinegar.load resolves classes exactly as configured; no import / constructor otherwise", ob_load(run, interp))
     run.obligation("O2_roundtrip", "dump -> record -> load: same built-in class, normalised args, gated traceback/version", ob_roundtrip(run, interp))
     run.obligation("O3_hostile_payloads", "crafted payloads: raises or returns an exception; no import, no constructor", ob_hostile(run, interp))
-    run.obligation("O4_history", "two loads in a row with independent switches: the second follows its own switches only (no process-wide memo of permissions)", ob_history(run, interp))
+    run.obligation("O4_history", "two loads in a row with independent switches: the second follows its own switches only (no process-wide memo of permissions)", ob_history(run, interp, 2 if run.tier == "thorough" else 1))
     run.note_encoded(interp)
     sys.exit(run.finish())
 
